@@ -70,7 +70,7 @@ func (c11Checker) Meta() CheckerMeta {
 			"under a read error on the first loader that has the name the operation is expected to fail (or render nothing under if_exists), not to fall through",
 			"fetch order and whether later loaders are probed after a hit are not prescribed and not checked",
 		},
-		QuickRuns: 500, QuickRace: 0,
+		QuickRuns: 6000, QuickRace: 0,
 	}
 }
 
